@@ -152,3 +152,66 @@ def decorate(prog, rng, p_item=0.35):
                     m.attrs.append('#[diplomat::abi_rename = "abi_%s_%s"]' % (t.name, m.name))
                     n += 1
     return n
+
+
+KEYWORD_FIELDS = ["class", "new", "default", "template", "namespace", "delete", "operator", "register", "int", "auto", "union", "typename",
+                  "private", "friend", "export", "this"]
+NAMESPACES = ["ns", "outer::inner", "a::b::c", "other", "outer::sibling", "outer"]
+
+
+def reference_graph_features(prog, rng, keyword_fields=True, namespaces=True, renames=True, this_param=False):
+    """What C09 quantifies over: cyclic type references, (nested) namespaces, renames, keyword-named parameters and fields."""
+    opaques = [t for t in prog.types() if t.kind == "opaque"]
+    structs = [t for t in prog.types() if t.kind == "struct" and not t.lifetimes]
+    # cycles through opaque methods: A::to_b(&B) -> Option<&B>, B::to_a(&A)
+    for i, a in enumerate(opaques):
+        b = opaques[(i + 1) % len(opaques)]
+        m = spec.Method("cyc%d" % i, ("ref", "a"), [("other", ("oref", b.name, False, "a", False))], ("oref", b.name, False, "a", True), lifetimes=["a"])
+        m.owner = a
+        a.methods.append(m)
+        m2 = spec.Method("mk_other%d" % i, ("ref", None), [], ("obox", b.name, False))
+        m2.owner = a
+        a.methods.append(m2)
+    # cycles through struct <-> opaque: struct method taking an opaque whose method takes the struct
+    for i, s in enumerate(structs[:2]):
+        if opaques:
+            o = opaques[i % len(opaques)]
+            m = spec.Method("use_op%d" % i, ("val",), [("o", ("oref", o.name, False, None, False))], ("struct", s.name))
+            m.owner = s
+            s.methods.append(m)
+            m2 = spec.Method("use_st%d" % i, ("ref", None), [("s", ("struct", s.name))], ("opt", ("struct", s.name), "std"))
+            m2.owner = o
+            o.methods.append(m2)
+    if keyword_fields:
+        for s in prog.types():
+            if s.kind in ("struct", "outstruct") and rng.random() < 0.5:
+                used = {fn for fn, _ in s.fields}
+                for j, (fn, ft) in enumerate(list(s.fields)):
+                    if rng.random() < 0.4:
+                        kw = rng.choice(KEYWORD_FIELDS)
+                        if kw not in used and kw != "this":
+                            s.fields[j] = (kw, ft)
+                            used.add(kw)
+    if this_param:
+        for t, m in prog.methods():
+            if m.self_kind and m.name.startswith("m") and rng.random() < 0.15 and not any(pn == "this" for pn, _ in m.params):
+                m.params.insert(0, ("this", ("prim", "u8")))
+    if namespaces:
+        for mod in prog.modules:
+            if rng.random() < 0.7:
+                mod.attrs.append('#[diplomat::attr(auto, namespace = "%s")]' % rng.choice(NAMESPACES))
+            for t in mod.items:
+                if rng.random() < 0.35:
+                    t.attrs.append('#[diplomat::attr(auto, namespace = "%s")]' % rng.choice(NAMESPACES))
+    if renames:
+        for t in prog.types():
+            r = rng.random()
+            if r < 0.2:
+                t.attrs.append('#[diplomat::attr(*, rename = "Rn%s")]' % t.name)
+            elif r < 0.3:
+                t.attrs.append('#[diplomat::attr(cpp, rename = "Cpp%s")]' % t.name)
+            elif r < 0.4:
+                t.attrs.append('#[diplomat::attr(js, rename = "Js%s")]' % t.name)
+            for m in t.methods:
+                if m.name != "make" and rng.random() < 0.15:
+                    m.attrs.append('#[diplomat::attr(%s, rename = "%s")]' % (rng.choice(["*", "cpp", "js"]), rng.choice(["renamed_" + m.name, "new", "delete", "class", "default"])))
